@@ -112,3 +112,81 @@ def simulate_witness(label, seed):
                 return dict(case, what='sensitivity column %d is not the derivative w.r.t. the %d-th published parameter %s (requested %s)' % (j, k, pn[k], subset or 'all'),
                             expected=fd.tolist(), observed=sens[:, :, j].T.tolist())
     return None
+
+
+def _native_program(prog):
+    from contracts import mech
+    chi = real_chi()
+    lib = mech.library_files()
+    if prog == 'pk_one_comp':
+        return chi.PKPDModel([f for f in lib if f.endswith('pk_one_comp.xml')][0])
+    if prog == 'full_pkpd':
+        return chi.PKPDModel([f for f in lib if f.endswith('temporary_full_pkpd_model.xml')][0])
+    return chi.PKPDModel(mech.generated_model(['drug_amount', 's_b'], ['k_a'], comp='central'))
+
+
+def history_witness(prog, done, seed):
+    """replay the history natively (numeric stand-in solver) and compare names / counts / regimen / simulation with a fresh
+    model to which only the final administration, regimen, outputs and sensitivity switch are applied"""
+    from contracts import c11
+    chi = real_chi()
+    opmap = dict(c11.ops())
+    m = _native_program(prog)
+    hist = []
+    for nm in done:
+        base = nm.rstrip('!')
+        try:
+            r = opmap[base](m)
+            if base == 'copy':
+                m = r
+        except Exception as ex:
+            if nm.endswith('!'):
+                continue
+            return {'what': 'native history [%s] raises %r at %s' % (' -> '.join(done), ex, nm), 'history': list(done), 'expected': 'no error', 'observed': repr(ex)}
+        hist.append(nm)
+    case = {'program': prog, 'history': list(done)}
+    # a freshly created model with the net configuration
+    f = _native_program(prog)
+    adm = m.administration()
+    try:
+        if adm is not None:
+            f.set_administration(adm['compartment'], direct=adm['direct'])
+        if m.dosing_regimen() is not None:
+            f.set_dosing_regimen(m.dosing_regimen())
+        f.set_outputs(list(m._output_names))
+    except Exception as ex:
+        return dict(case, what='the final configuration (administration %s, outputs %s) cannot be applied to a fresh model: %r' % (adm, m._output_names, ex), expected='applicable', observed=repr(ex))
+    if len(m._parameter_names) != len(f._parameter_names) or m.n_parameters() != f.n_parameters():
+        return dict(case, what='the model publishes %d parameters %s, a fresh model with the same administration %s has %d: %s' % (
+            m.n_parameters(), m.parameters(), adm, f.n_parameters(), f.parameters()), expected=f.parameters(), observed=m.parameters())
+    # the name tables must not remember outputs that are no longer selected: a public name that belonged to a dropped output is
+    # free again on a fresh model with the same selection
+    stale = [v for k, v in m._output_name_map.items() if k not in m._output_names]
+    for v in stale:
+        def probe(model):
+            c = model.copy()
+            try:
+                c.set_output_names({c.outputs()[0]: v})
+                return 'accepted'
+            except Exception as ex:
+                return type(ex).__name__
+        a_, b_ = probe(m), probe(f)
+        if a_ != b_:
+            return dict(case, what='renaming the output %r to %r is %s after the history but %s on a fresh model with the same output selection %s' % (
+                m.outputs()[0], v, a_, b_, list(m._output_names)), expected=b_, observed=a_)
+    x = np.linspace(0.6, 1.4, f.n_parameters())
+    times = [0.5, 1.2, 2.0, 4.5]
+    try:
+        a_ = np.asarray(m.simulate(x, times)[0] if m.has_sensitivities() else m.simulate(x, times))
+        b_ = np.asarray(f.simulate(x, times))
+    except Exception as ex:
+        return dict(case, what='simulate after the history raises %r' % (ex,), expected='solution', observed=repr(ex))
+    if a_.shape != b_.shape or not np.allclose(a_, b_, rtol=1e-6, atol=1e-9):
+        return dict(case, what='simulation after the history differs from a fresh model with the same reported configuration (administration %s, reported regimen %s): max abs diff %.3g' % (
+            adm, None if m.dosing_regimen() is None else [(e.level(), e.start(), e.duration(), e.period(), e.multiplier()) for e in m.dosing_regimen().events()],
+            float(np.max(np.abs(a_ - b_))) if a_.shape == b_.shape else float('nan')), expected=b_.tolist(), observed=a_.tolist())
+    return None
+
+
+def reduced_witness(done, seed):
+    return None
